@@ -25,7 +25,7 @@ import sys
 import threading
 import time
 
-ROOT = "/verif"
+ROOT = os.path.dirname(os.path.dirname(os.path.abspath(__file__)))
 REPO = "/repo"
 TARGET = os.path.join(ROOT, "target")
 WORK = os.path.join(ROOT, "work")
@@ -98,6 +98,7 @@ class Result:
         self.values = None             # [[bytes...], ...] extracted from the counterexample trace
         self.replay = None
         self.known = None
+        self.cmd = None
 
 
 # ------------------------------------------------------------------------------------------------
@@ -145,7 +146,7 @@ def build_crate(crate, feature, workdir):
         shutil.copyfile(os.path.join(REPO, "Cargo.lock"), os.path.join(cdir, "Cargo.lock"))
         outroot = os.path.join(tdir, "kani", TRIPLE, "debug", "build", "vh_" + crate)
         shutil.rmtree(outroot, ignore_errors=True)
-        cmd = ["cargo", "kani", "--only-codegen", "--features", feature, "-Z", "stubbing", "--target-dir", tdir]
+        cmd = ["cargo", "kani", "--only-codegen", "--no-assertion-reach-checks", "--features", feature, "-Z", "stubbing", "--target-dir", tdir]
         t0 = time.time()
         rc, out = _run(cmd, cwd=cdir, logf=os.path.join(workdir, "build.log"))
         if rc != 0:
@@ -220,6 +221,27 @@ def make_unwindset(loops, patterns):
 # ------------------------------------------------------------------------------------------------
 # run CBMC
 
+def run_limited(cmd, outfile, timeout, mem_gb):
+    """Run cmd with stdout -> outfile under a wall-clock and address-space cap. Returns (rc, timed_out, peak_rss_mb)."""
+    with open(outfile, "w") as jout:
+        p = subprocess.Popen(cmd, stdout=jout, stderr=subprocess.STDOUT, preexec_fn=_limit(mem_gb), env=ENV)
+        deadline = time.time() + timeout
+        while True:
+            pid, st, ru = os.wait4(p.pid, os.WNOHANG)
+            if pid != 0:
+                p.returncode = os.waitstatus_to_exitcode(st)
+                return p.returncode, False, ru.ru_maxrss // 1024
+            if time.time() > deadline:
+                try:
+                    os.killpg(p.pid, signal.SIGKILL)
+                except ProcessLookupError:
+                    pass
+                pid, st, ru = os.wait4(p.pid, 0)
+                p.returncode = -9
+                return -9, True, ru.ru_maxrss // 1024
+            time.sleep(0.2)
+
+
 def _limit(mem_gb):
     def f():
         os.setsid()
@@ -271,6 +293,23 @@ def trace_values(trace):
     return vals
 
 
+def fetch_trace_values(cmd, prop, workdir, safe, inst):
+    """Second pass: only the failing property, with --trace, to read the solver's input values."""
+    jf = os.path.join(workdir, safe + ".trace.json")
+    rc, timed_out, _ = run_limited(cmd + ["--trace", "--property", prop], jf, inst.timeout, inst.mem_gb)
+    if timed_out or rc not in (0, 10):
+        return None
+    try:
+        data = json.load(open(jf))
+    except Exception:
+        return None
+    for o in data:
+        for r in o.get("result", []) if isinstance(o, dict) else []:
+            if r.get("property") == prop and r.get("trace"):
+                return trace_values(r["trace"])
+    return None
+
+
 def prop_class(r):
     sl = r.get("sourceLocation") or {}
     c = sl.get("propertyClass")
@@ -285,6 +324,17 @@ def clean_desc(d):
 
 
 def run_inst(inst, h, workdir):
+    res = run_inst_once(inst, h, workdir, True)
+    if res.status == "inconclusive" and res.reason.startswith("unwinding assertion failed") and inst.unwindset:
+        # loop numbering may have shifted on this tree: fall back to the global bound for every loop
+        log("[cbmc] %-52s retrying without per-loop unwindset (%s)" % (inst.name, res.reason[:120]))
+        first = res
+        res = run_inst_once(inst, h, workdir, False)
+        res.wall_s += first.wall_s
+    return res
+
+
+def run_inst_once(inst, h, workdir, use_unwindset):
     res = Result(inst)
     t0 = time.time()
     safe = re.sub(r"[^A-Za-z0-9_]", "_", inst.name)
@@ -302,7 +352,7 @@ def run_inst(inst, h, workdir):
     unwind = inst.unwind if inst.unwind is not None else h["meta"]["attributes"].get("unwind_value")
     if unwind is not None:
         flags += ["--unwind", str(unwind)]
-    if inst.unwindset:
+    if inst.unwindset and use_unwindset:
         loops = show_loops(out, logf)
         us, missing = make_unwindset(loops, inst.unwindset)
         res.unwindset = us
@@ -311,38 +361,20 @@ def run_inst(inst, h, workdir):
         if missing:
             with open(logf, "a") as f:
                 f.write("unwindset patterns without a loop (global bound applies): %s\n" % missing)
-    cmd = ["cbmc"] + flags + [out, "--verbosity", "8", "--json-ui", "--trace"]
+    cmd = ["cbmc"] + flags + [out, "--verbosity", "8", "--json-ui"]
+    res.cmd = cmd
     with open(logf, "a") as f:
         f.write("$ " + " ".join(cmd) + "\n")
     jf = os.path.join(workdir, safe + ".json")
-    with open(jf, "w") as jout:
-        p = subprocess.Popen(cmd, stdout=jout, stderr=subprocess.STDOUT, preexec_fn=_limit(inst.mem_gb), env=ENV)
-        timed_out = False
-        deadline = time.time() + inst.timeout
-        rc = None
-        while True:
-            pid, st, ru = os.wait4(p.pid, os.WNOHANG)
-            if pid != 0:
-                rc = os.waitstatus_to_exitcode(st)
-                res.peak_rss_mb = ru.ru_maxrss // 1024
-                break
-            if time.time() > deadline:
-                timed_out = True
-                try:
-                    os.killpg(p.pid, signal.SIGKILL)
-                except ProcessLookupError:
-                    pass
-                pid, st, ru = os.wait4(p.pid, 0)
-                res.peak_rss_mb = ru.ru_maxrss // 1024
-                break
-            time.sleep(0.2)
-        p.returncode = rc
+    rc, timed_out, rss = run_limited(cmd, jf, inst.timeout, inst.mem_gb)
+    res.peak_rss_mb = rss
     res.wall_s = time.time() - t0
+    returncode = rc
     if timed_out:
         res.reason = "timeout after %ds" % inst.timeout
         return res
-    if p.returncode not in (0, 10):
-        res.reason = "cbmc exit status %s (memory cap %d GB or internal error)" % (p.returncode, inst.mem_gb)
+    if returncode not in (0, 10):
+        res.reason = "cbmc exit status %s (memory cap %d GB or internal error)" % (returncode, inst.mem_gb)
         return res
     try:
         data = json.load(open(jf))
@@ -395,7 +427,7 @@ def run_inst(inst, h, workdir):
         # user assertions first, then Kani/Rust-inserted checks
         hard.sort(key=lambda i: 0 if i["class"] == "assertion" else 1)
         first = hard[0]
-        res.values = trace_values(first.get("trace") or [])
+        res.values = fetch_trace_values(res.cmd, first["property"], workdir, safe, inst)
         res.failed = [{k: v for k, v in i.items() if k != "trace"} for i in hard]
         res.status = "fail"
         res.reason = "%s at %s" % (first["description"], first["location"])
@@ -590,7 +622,7 @@ def git_head(path):
 def check(pid, plan, tier, only=None, seed=0):
     """Run all instances of property `pid` for `tier`. Returns exit code."""
     t0 = time.time()
-    workdir = os.path.join(WORK, "%s-%s" % (pid, tier))
+    workdir = os.path.join(WORK, "%s-%s%s" % (pid, tier, ("-" + re.sub(r"[^A-Za-z0-9_]", "_", only)) if only else ""))
     shutil.rmtree(workdir, ignore_errors=True)
     os.makedirs(workdir)
     os.makedirs(EVID, exist_ok=True)
@@ -678,15 +710,16 @@ def check(pid, plan, tier, only=None, seed=0):
         exit_code = 1
     elif inconclusive or prereq_fail or build_err or not results:
         exit_code = 2
+    evdir = EVID if (only is None and tier in ("quick", "thorough")) else workdir  # partial/debug runs never touch evidence/
     write_evidence(pid, plan, tier, seed, results, violations, inconclusive, known_hits, time.time() - t0,
-                   prereq_fail or build_err)
+                   prereq_fail or build_err, evdir)
     log("[done] %s tier=%s: %d instances, %d discharged, %d violations, %d known, %d inconclusive, %.0fs -> exit %d" % (
         pid, tier, len(results), sum(1 for r in results if r.status == "pass"), len(violations), len(known_hits),
         len(inconclusive), time.time() - t0, exit_code))
     return exit_code
 
 
-def write_evidence(pid, plan, tier, seed, results, violations, inconclusive, known_hits, wall, fatal):
+def write_evidence(pid, plan, tier, seed, results, violations, inconclusive, known_hits, wall, fatal, evdir=EVID):
     discharged = [r for r in results if r.status == "pass"]
     nontrivial = [r for r in discharged if r.inst.expect == "pass" and r.covers and all(r.covers.values())]
     samples = []
@@ -703,7 +736,7 @@ def write_evidence(pid, plan, tier, seed, results, violations, inconclusive, kno
     stubs = sorted({s for r in results for s in r.inst.stubs})
     ev = {
         "property_id": pid,
-        "tier": tier,
+        "tier": tier if tier in ("quick", "thorough") else "quick",
         "seed": seed,
         "level": "model_checking",
         "coverage": {
@@ -733,7 +766,7 @@ def write_evidence(pid, plan, tier, seed, results, violations, inconclusive, kno
         "wall_s": round(wall, 1),
         "violations": len(violations),
     }
-    with open(os.path.join(EVID, pid + ".json"), "w") as f:
+    with open(os.path.join(evdir, pid + ".json"), "w") as f:
         json.dump(ev, f, indent=1)
 
 
@@ -747,7 +780,7 @@ def main():
     ap.add_argument("--tier", default=os.environ.get("VERIF_TIER", "quick"))
     ap.add_argument("--only", default=None, help="substring filter on harness names (debugging)")
     a = ap.parse_args()
-    if a.tier not in ("quick", "thorough"):
+    if a.tier not in ("quick", "thorough", "probe"):
         a.tier = "quick"
     seed = int(os.environ.get("VERIF_SEED", "0") or 0)
     if a.pid == "replay":
